@@ -1,7 +1,7 @@
 #!/bin/bash
 # Run every seeded change against the check(s) of the property it breaks (quick run counts) and write seeded/RESULTS.md
 cd "$(dirname "$(readlink -f "$0")")/.."
-declare -A RUNS=( [C09]=4000 [C10]=12000 [C12]=4000 [C19]=3000 [C20]=4500 )
+declare -A RUNS=( [C09]=3000 [C10]=12000 [C12]=3200 [C19]=2700 [C20]=3000 )
 OUT=seeded/RESULTS.md
 echo "| change | property | result (quick tier unless stated) |" > $OUT; echo "|---|---|---|" >> $OUT
 for d in seeded/*/; do
